@@ -101,6 +101,13 @@ class Bound:
         self.recv, self.name = recv, name
 
 
+class NoneRepeat:
+    """[None] * n before its element type is known"""
+
+    def __init__(self, n):
+        self.n = n
+
+
 class RangeV:
     def __init__(self, start, stop, step):
         self.start, self.stop, self.step = start, stop, step
@@ -1312,6 +1319,21 @@ class Engine:
     # ------------------------------------------------------------------ assignment
     def assign(self, target, v, fr):
         from .externals import Unpickled, resolve_unpickled
+        if isinstance(v, NoneRepeat):
+            fty = None
+            if isinstance(target, ast.Attribute):
+                obj = self.eval(target.value, fr)
+                if isinstance(obj, Ref) and self.cell(obj)[0] == "obj":
+                    fty = self.cell(obj)[1].fields.get(self.mangle(target.attr, fr))
+            if not (isinstance(fty, TList) and isinstance(fty.elem, TOpt)):
+                raise Unsupported("[None] * n stored where no list-of-optional type is declared")
+            sv = self.fresh("nones", fty)
+            so = sort(fty.elem)
+            j = z3.Int("nj")
+            self.assume(z3.Length(sv.t) == z3.If(v.n < 0, 0, v.n))
+            self.assume(z3.ForAll([j], z3.Implies(z3.And(0 <= j, j < z3.Length(sv.t)), sv.t[j] == so.none),
+                                  patterns=[nth_pat(sv.t, j)]))
+            v = self.new_symlist(sv)
         if isinstance(v, Unpickled) and isinstance(target, ast.Attribute):
             obj = self.eval(target.value, fr)
             fty = None
